@@ -307,7 +307,8 @@ Proof.
   intros s lab s' o Hinv HJ H.
   pose proof (inv_step pref s lab s' o Hinv H) as Hinv'.
   destruct Hinv as [Hm Hl]. destruct Hinv' as [Hm' _].
-  destruct lab as [t op|t c]; cbn [sys_step] in H.
+  destruct lab as [t op|t c|p]; cbn [sys_step] in H.
+  3: { inversion H; subst; clear H. intros Hn. cbn [s_g set_pool g_exec] in Hn. exact (HJ Hn). }
   - (* begin: the tables are untouched; t is in no table *)
     destruct (begin_op op (s_l s t)) as [l'|] eqn:E; [|discriminate]. inversion H; subst; clear H.
     intros Hn. cbn [s_g] in *. specialize (HJ Hn).
